@@ -225,10 +225,18 @@ def scan_forbidden():
 
 # ---------------------------------------------------------------- findings, replays, evidence
 def load_findings():
+    """known_findings.json (committed; never written at run time) plus, during development,
+    per-property fragments known_findings.d/*.json that are merged into it before committing"""
+    out = []
     p = os.path.join(ROOT, 'known_findings.json')
-    if not os.path.exists(p):
-        return []
-    return json.load(open(p))
+    if os.path.exists(p):
+        out.extend(json.load(open(p)))
+    d = os.path.join(ROOT, 'known_findings.d')
+    if os.path.isdir(d):
+        for f in sorted(os.listdir(d)):
+            if f.endswith('.json'):
+                out.extend(json.load(open(os.path.join(d, f))))
+    return out
 
 
 class Check(object):
